@@ -37,6 +37,14 @@ import (
 // ceil(span*n) = degree+2 upwards: there the farthest window point has weight
 // 0 and the fit is the interpolant of the other degree+1 points (below that
 // the local fit is not determined and nothing is judged).
+//
+// The same bounds are 0 when ys (or the ys of a LOESS window) are identically
+// zero: the minimiser is exactly 0 and any method that is linear in ys returns
+// exactly 0, so such data are part of the workload. LinearLeastSquares is
+// also driven with 8..12 basis functions (Fourier, Chebyshev). Histories
+// (c15JudgeHistory) refill the same xs/ys/weights arrays in place between
+// calls: a fit may depend only on the numbers it is handed, not on what the
+// same arrays held before.
 
 const (
 	c15C       = 16.0
@@ -65,6 +73,27 @@ type c15Case struct {
 	// (informational: both are already applied to Xs, Ys, Qs, Coef)
 	KX int `json:"kx,omitempty"`
 	KY int `json:"ky,omitempty"`
+	// Op "history": the steps (complete cases of one operation, all with the
+	// same number of points) are judged one after the other, Rounds times
+	// over, each time after writing the step's xs, ys and weights IN PLACE
+	// into the same three arrays that the previous step handed to the library
+	Steps  []c15Case `json:"steps,omitempty"`
+	Rounds int       `json:"rounds,omitempty"`
+
+	// set by c15JudgeHistory on the copy of a step it judges (not serialised)
+	bufs  *c15Bufs
+	outer *c15Case
+	step  string
+}
+
+// c15V records a refuted case; for a step of a history the whole history is
+// the case (the step alone, on fresh arrays, is a different experiment).
+func c15V(w *mon.W, kind, msg string, c c15Case) {
+	if c.outer != nil {
+		w.Violate(kind, "["+c.step+"] "+msg, *c.outer)
+		return
+	}
+	w.Violate(kind, msg, c)
 }
 
 func init() {
@@ -84,6 +113,8 @@ func c15Judge(w *mon.W, c c15Case) {
 		c15JudgePoly(w, c)
 	case "loess":
 		c15JudgeLOESS(w, c)
+	case "history":
+		c15JudgeHistory(w, c)
 	}
 }
 
@@ -114,6 +145,45 @@ func c15NewGuard(name string, data []float64, isNil bool) *c15Guard {
 	return g
 }
 
+// Refill overwrites the guarded cells in place with new data of the same
+// length (the backing array, and therefore the address of every cell the
+// library is handed, stays the same) and takes a new snapshot. asNil: the
+// library is handed a nil slice this time (no weights).
+func (g *c15Guard) Refill(data []float64, asNil bool) {
+	g.isNil = asNil
+	if !asNil && len(data) == g.n {
+		copy(g.back[g.off:g.off+g.n], data)
+	}
+	for i, v := range g.back {
+		g.snap[i] = math.Float64bits(v)
+	}
+}
+
+// c15Bufs are the three arrays a history reuses for every step.
+type c15Bufs struct {
+	n          int
+	gx, gy, gw *c15Guard
+	fills      int // steps that reached the library
+}
+
+func c15NewBufs(n int) *c15Bufs {
+	z := make([]float64, n)
+	return &c15Bufs{n: n, gx: c15NewGuard("xs", z, false), gy: c15NewGuard("ys", z, false), gw: c15NewGuard("weights", z, false)}
+}
+
+// c15Guards returns the guarded arguments of a case: fresh arrays, or for a
+// step of a history the history's arrays refilled in place.
+func c15Guards(c c15Case, xs, ys, ws []float64) (gx, gy, gw *c15Guard) {
+	if b := c.bufs; b != nil && b.n == len(xs) && len(ys) == b.n && (ws == nil || len(ws) == b.n) {
+		b.gx.Refill(xs, false)
+		b.gy.Refill(ys, false)
+		b.gw.Refill(ws, ws == nil)
+		b.fills++
+		return b.gx, b.gy, b.gw
+	}
+	return c15NewGuard("xs", xs, false), c15NewGuard("ys", ys, false), c15NewGuard("weights", ws, ws == nil)
+}
+
 // Slice is what is handed to the library: len n, capacity n+4.
 func (g *c15Guard) Slice() []float64 {
 	if g.isNil {
@@ -140,7 +210,7 @@ func c15CheckGuards(w *mon.W, c c15Case, after string, gs ...*c15Guard) bool {
 	ok := true
 	for _, g := range gs {
 		if ch, msg := g.Changed(); ch {
-			w.Violate("input-modified", fmt.Sprintf("%s modified its input: %s", after, msg), c)
+			c15V(w, "input-modified", fmt.Sprintf("%s modified its input: %s", after, msg), c)
 			ok = false
 		}
 	}
@@ -231,8 +301,39 @@ func c15Basis(name string, degree int) *c15Terms {
 	case "sincos":
 		add("sin", math.Sin)
 		add("cos", math.Cos)
+	// wide bases: the first `degree` functions (8..12) of
+	case "fourier": // 1, sin(k pi x/2), cos(k pi x/2), k = 1, 2, ...: period 4, the width of [-2,2]
+		if degree < 1 || degree > 16 {
+			break
+		}
+		add("1", mono(0))
+		for k := 1; len(t.fns) < degree; k++ {
+			om := float64(k) * math.Pi / 2
+			add(fmt.Sprintf("sin(%d pi x/2)", k), func(x float64) float64 { return math.Sin(om * x) })
+			if len(t.fns) < degree {
+				add(fmt.Sprintf("cos(%d pi x/2)", k), func(x float64) float64 { return math.Cos(om * x) })
+			}
+		}
+	case "cheb": // Chebyshev polynomials T_k(x/2), k = 0, 1, ...: [-2,2] mapped onto [-1,1]
+		if degree < 1 || degree > 16 {
+			break
+		}
+		for k := 0; k < degree; k++ {
+			k := k
+			add(fmt.Sprintf("T%d(x/2)", k), func(x float64) float64 {
+				u := x / 2
+				a, b := 1.0, u
+				if k == 0 {
+					return a
+				}
+				for j := 2; j <= k; j++ {
+					a, b = b, 2*u*b-a
+				}
+				return b
+			})
+		}
 	}
-	if name == "mono" || name == "trig" || name == "exp" || name == "mixed" {
+	if len(t.fns) > 0 && (name == "mono" || name == "trig" || name == "exp" || name == "mixed" || name == "fourier" || name == "cheb") {
 		t.constIdx = 0
 	}
 	t.calls = make([]int, len(t.fns))
@@ -379,6 +480,15 @@ func c15ScaleClasses(w *mon.W, c c15Case, ys, ws []float64) {
 
 // c15ScaledWeights returns c*ws (ws == nil: the constant weight c), or nil
 // when a product leaves the positive normal range.
+func c15AllZero(ys []float64) bool {
+	for _, y := range ys {
+		if y != 0 {
+			return false
+		}
+	}
+	return true
+}
+
 func c15ScaledWeights(ws []float64, n int, c float64) []float64 {
 	out := make([]float64, n)
 	for i := range out {
@@ -419,7 +529,7 @@ func c15WeightScaleLaw(w *mon.W, c c15Case, m *ref.LSQ, who string, first []floa
 		what = fmt.Sprintf("no weights replaced by the constant weight %.6g", f)
 	}
 	if len(second) != len(first) || !c15Finite(second) {
-		w.Violate(who+"-weight-scale", fmt.Sprintf("%s returned %v with %s; %v before (%s)", who, second, what, first, c15Brief(c)), c)
+		c15V(w, who+"-weight-scale", fmt.Sprintf("%s returned %v with %s; %v before (%s)", who, second, what, first, c15Brief(c)), c)
 		return
 	}
 	dist := 0.0
@@ -428,7 +538,7 @@ func c15WeightScaleLaw(w *mon.W, c c15Case, m *ref.LSQ, who string, first []floa
 	}
 	tb := m.TolBeta(c15C, false)
 	if !w.Err(who+"-weight-scale", dist, 3*tb) {
-		w.Violate(who+"-weight-scale", fmt.Sprintf("%s: the fit depends on the overall scale of the weights: %v, but %v with %s (distance %.6g, tolerance %.3g, cond=%.3g; %s)", who, first, second, what, dist, 3*tb, m.Cond, c15Brief(c)), c)
+		c15V(w, who+"-weight-scale", fmt.Sprintf("%s: the fit depends on the overall scale of the weights: %v, but %v with %s (distance %.6g, tolerance %.3g, cond=%.3g; %s)", who, first, second, what, dist, 3*tb, m.Cond, c15Brief(c)), c)
 	}
 }
 
@@ -449,11 +559,11 @@ func c15WellPosed(w *mon.W, m *ref.LSQ) bool {
 // the sum" by direct evaluation of S in 384 bits.
 func c15JudgeParams(w *mon.W, c c15Case, m *ref.LSQ, params []float64, who string) bool {
 	if len(params) != m.P {
-		w.Violate(who+"-length", fmt.Sprintf("%s returned %d parameters for %d basis functions (%s)", who, len(params), m.P, c15Brief(c)), c)
+		c15V(w, who+"-length", fmt.Sprintf("%s returned %d parameters for %d basis functions (%s)", who, len(params), m.P, c15Brief(c)), c)
 		return false
 	}
 	if !c15Finite(params) {
-		w.Violate(who+"-nonfinite", fmt.Sprintf("%s returned %v on a well-conditioned design (cond=%.3g; %s)", who, params, m.Cond, c15Brief(c)), c)
+		c15V(w, who+"-nonfinite", fmt.Sprintf("%s returned %v on a well-conditioned design (cond=%.3g; %s)", who, params, m.Cond, c15Brief(c)), c)
 		return false
 	}
 	ok := true
@@ -474,7 +584,7 @@ func c15JudgeParams(w *mon.W, c c15Case, m *ref.LSQ, params []float64, who strin
 		}
 	}
 	if !w.Err(who+"-orthogonality", worst, tg) {
-		w.Violate(who+"-orthogonality", fmt.Sprintf("%s: weighted residual is not orthogonal to basis function %d: sum w r phi = %.6g, tolerance %.3g (cond=%.3g); returned %v, minimiser %v (%s)", who, wj, worst, tg, m.Cond, params, want, c15Brief(c)), c)
+		c15V(w, who+"-orthogonality", fmt.Sprintf("%s: weighted residual is not orthogonal to basis function %d: sum w r phi = %.6g, tolerance %.3g (cond=%.3g); returned %v, minimiser %v (%s)", who, wj, worst, tg, m.Cond, params, want, c15Brief(c)), c)
 		ok = false
 	}
 
@@ -484,7 +594,7 @@ func c15JudgeParams(w *mon.W, c c15Case, m *ref.LSQ, params []float64, who strin
 		d2 = math.Hypot(d2, ref.F64(ref.Sub(beta[j], m.Beta[j])))
 	}
 	if !w.Err(who+"-coefficients", d2, tb) {
-		w.Violate(who+"-coefficients", fmt.Sprintf("%s returned %v, the least-squares minimiser is %v (distance %.6g, tolerance %.3g, cond=%.3g; %s)", who, params, want, d2, tb, m.Cond, c15Brief(c)), c)
+		c15V(w, who+"-coefficients", fmt.Sprintf("%s returned %v, the least-squares minimiser is %v (distance %.6g, tolerance %.3g, cond=%.3g; %s)", who, params, want, d2, tb, m.Cond, c15Brief(c)), c)
 		ok = false
 	}
 
@@ -506,7 +616,7 @@ func c15JudgeParams(w *mon.W, c c15Case, m *ref.LSQ, params []float64, who strin
 			drop = 0
 		}
 		if !w.Err(who+"-perturbation", drop, ts) && ok {
-			w.Violate(who+"-perturbation", fmt.Sprintf("%s: perturbation %s lowers the sum of squared residuals from %.17g by %.6g (tolerance %.3g); returned %v, minimiser %v (%s)", who, what, ref.F64(s0), drop, ts, params, want, c15Brief(c)), c)
+			c15V(w, who+"-perturbation", fmt.Sprintf("%s: perturbation %s lowers the sum of squared residuals from %.17g by %.6g (tolerance %.3g); returned %v, minimiser %v (%s)", who, what, ref.F64(s0), drop, ts, params, want, c15Brief(c)), c)
 			ok = false
 		}
 	}
@@ -558,16 +668,18 @@ func c15JudgeLLS(w *mon.W, c c15Case) {
 	w.HitIf(t.constIdx > 0, "lls-constant-not-first")
 	w.HitIf(t.constIdx > 0 && t.constIdx == m.P-1, "lls-constant-last")
 	w.HitIf(c.TermPerm != nil, "lls-terms-permuted")
+	w.HitIf(m.P >= 8, "p>=8")
+	w.HitIf(c15AllZero(ys), "lls-ys-all-zero")
 	c15ScaleClasses(w, c, ys, ws)
 
-	gx, gy, gw := c15NewGuard("xs", xs, false), c15NewGuard("ys", ys, false), c15NewGuard("weights", ws, ws == nil)
+	gx, gy, gw := c15Guards(c, xs, ys, ws)
 	var params []float64
 	w.Eval("LinearLeastSquares")
 	if p, e := mon.Call(func() { params = fit.LinearLeastSquares(gx.Slice(), gy.Slice(), gw.Slice(), t.lib(len(xs))...) }); p {
 		if s, isS := e.(c15Sentinel); isS {
-			w.Violate("step-budget", fmt.Sprintf("LinearLeastSquares: %s (%s)", s.msg, c15Brief(c)), c)
+			c15V(w, "step-budget", fmt.Sprintf("LinearLeastSquares: %s (%s)", s.msg, c15Brief(c)), c)
 		} else {
-			w.Violate("panic", fmt.Sprintf("LinearLeastSquares panicked: %v (%s)", e, c15Brief(c)), c)
+			c15V(w, "panic", fmt.Sprintf("LinearLeastSquares panicked: %v (%s)", e, c15Brief(c)), c)
 		}
 		return
 	}
@@ -586,9 +698,9 @@ func c15JudgeLLS(w *mon.W, c c15Case) {
 			w.Eval("LinearLeastSquares")
 			if p, e := mon.Call(func() { out = fit.LinearLeastSquares(gx.Slice(), gy.Slice(), gw2.Slice(), t.lib(len(xs))...) }); p {
 				if s, isS := e.(c15Sentinel); isS {
-					w.Violate("step-budget", fmt.Sprintf("LinearLeastSquares: %s (%s)", s.msg, c15Brief(c)), c)
+					c15V(w, "step-budget", fmt.Sprintf("LinearLeastSquares: %s (%s)", s.msg, c15Brief(c)), c)
 				} else {
-					w.Violate("panic", fmt.Sprintf("LinearLeastSquares (weights rescaled) panicked: %v (%s)", e, c15Brief(c)), c)
+					c15V(w, "panic", fmt.Sprintf("LinearLeastSquares (weights rescaled) panicked: %v (%s)", e, c15Brief(c)), c)
 				}
 				return nil, false
 			}
@@ -622,13 +734,14 @@ func c15JudgePoly(w *mon.W, c c15Case) {
 	w.HitIf(c.Coef != nil && !c.Exact, "rounded-polynomial-data")
 	w.HitIf(c.Coef == nil, "non-polynomial-data")
 	w.HitIf(c.Domain != "", "shifted-domain")
+	w.HitIf(c15AllZero(ys), "poly-ys-all-zero")
 	c15ScaleClasses(w, c, ys, ws)
 
-	gx, gy, gw := c15NewGuard("xs", xs, false), c15NewGuard("ys", ys, false), c15NewGuard("weights", ws, ws == nil)
+	gx, gy, gw := c15Guards(c, xs, ys, ws)
 	var res fit.PolynomialRegressionResult
 	w.Eval("PolynomialRegression")
 	if p, e := mon.Call(func() { res = fit.PolynomialRegression(gx.Slice(), gy.Slice(), gw.Slice(), d) }); p {
-		w.Violate("panic", fmt.Sprintf("PolynomialRegression panicked: %v (%s)", e, c15Brief(c)), c)
+		c15V(w, "panic", fmt.Sprintf("PolynomialRegression panicked: %v (%s)", e, c15Brief(c)), c)
 		return
 	}
 	c15CheckGuards(w, c, "PolynomialRegression", gx, gy, gw)
@@ -637,7 +750,7 @@ func c15JudgePoly(w *mon.W, c c15Case) {
 		return
 	}
 	if res.F == nil {
-		w.Violate("F-nil", "PolynomialRegression returned a nil F ("+c15Brief(c)+")", c)
+		c15V(w, "F-nil", "PolynomialRegression returned a nil F ("+c15Brief(c)+")", c)
 		return
 	}
 	tb := m.TolBeta(c15C, false)
@@ -647,7 +760,7 @@ func c15JudgePoly(w *mon.W, c c15Case) {
 		var y float64
 		w.Eval("PolynomialRegressionResult.F")
 		if p, e := mon.Call(func() { y = res.F(x) }); p {
-			w.Violate("panic", fmt.Sprintf("PolynomialRegressionResult.F(%g) panicked: %v (%s)", x, e, c15Brief(c)), c)
+			c15V(w, "panic", fmt.Sprintf("PolynomialRegressionResult.F(%g) panicked: %v (%s)", x, e, c15Brief(c)), c)
 			return 0, false
 		}
 		return y, true
@@ -661,13 +774,13 @@ func c15JudgePoly(w *mon.W, c c15Case) {
 		val, abs := ref.PolyEval(coef, x)
 		tol := c15C*float64(d+1)*c15Eps*ref.F64(abs) + 4*math.SmallestNonzeroFloat64
 		if !w.Err("F-vs-coefficients", math.Abs(got-ref.F64(val)), tol) {
-			w.Violate("F-vs-coefficients", fmt.Sprintf("F(%.17g)=%.17g but sum Coefficients[i]*x^i = %.17g (tolerance %.3g) with Coefficients=%v", x, got, ref.F64(val), tol, coef), c)
+			c15V(w, "F-vs-coefficients", fmt.Sprintf("F(%.17g)=%.17g but sum Coefficients[i]*x^i = %.17g (tolerance %.3g) with Coefficients=%v", x, got, ref.F64(val), tol, coef), c)
 			return
 		}
 	}
 	for i := range coef {
 		if math.Float64bits(coef[i]) != math.Float64bits(res.Coefficients[i]) {
-			w.Violate("F-changes-coefficients", fmt.Sprintf("evaluating F changed Coefficients[%d] from %g to %g", i, coef[i], res.Coefficients[i]), c)
+			c15V(w, "F-changes-coefficients", fmt.Sprintf("evaluating F changed Coefficients[%d] from %g to %g", i, coef[i], res.Coefficients[i]), c)
 			return
 		}
 	}
@@ -685,7 +798,7 @@ func c15JudgePoly(w *mon.W, c c15Case) {
 			dist = math.Hypot(dist, coef[j]-gen[j])
 		}
 		if !w.Err("poly-recovers-coefficients", dist, slack*tb) {
-			w.Violate("poly-recovers-coefficients", fmt.Sprintf("data generated by the polynomial %v: PolynomialRegression of degree %d returned %v (distance %.6g, tolerance %.3g, cond=%.3g; %s)", gen, d, coef, dist, slack*tb, m.Cond, c15Brief(c)), c)
+			c15V(w, "poly-recovers-coefficients", fmt.Sprintf("data generated by the polynomial %v: PolynomialRegression of degree %d returned %v (distance %.6g, tolerance %.3g, cond=%.3g; %s)", gen, d, coef, dist, slack*tb, m.Cond, c15Brief(c)), c)
 			return
 		}
 		for i, x := range xs {
@@ -701,7 +814,7 @@ func c15JudgePoly(w *mon.W, c c15Case) {
 			}
 			tol := slack*tb*vn + c15C*float64(d+1)*c15Eps*ab + 2*c15Eps*math.Abs(ys[i])
 			if !w.Err("poly-reproduces-data", math.Abs(got-ys[i]), tol) {
-				w.Violate("poly-reproduces-data", fmt.Sprintf("data generated by the polynomial %v: F(xs[%d]=%.17g)=%.17g, ys[%d]=%.17g (tolerance %.3g; %s)", gen, i, x, got, i, ys[i], tol, c15Brief(c)), c)
+				c15V(w, "poly-reproduces-data", fmt.Sprintf("data generated by the polynomial %v: F(xs[%d]=%.17g)=%.17g, ys[%d]=%.17g (tolerance %.3g; %s)", gen, i, x, got, i, ys[i], tol, c15Brief(c)), c)
 				return
 			}
 		}
@@ -713,15 +826,15 @@ func c15JudgePoly(w *mon.W, c c15Case) {
 	w.Eval("LinearLeastSquares(monomials)")
 	if p, e := mon.Call(func() { params = fit.LinearLeastSquares(gx.Slice(), gy.Slice(), gw.Slice(), t.lib(len(xs))...) }); p {
 		if s, isS := e.(c15Sentinel); isS {
-			w.Violate("step-budget", fmt.Sprintf("LinearLeastSquares: %s (%s)", s.msg, c15Brief(c)), c)
+			c15V(w, "step-budget", fmt.Sprintf("LinearLeastSquares: %s (%s)", s.msg, c15Brief(c)), c)
 		} else {
-			w.Violate("panic", fmt.Sprintf("LinearLeastSquares on monomials panicked: %v (%s)", e, c15Brief(c)), c)
+			c15V(w, "panic", fmt.Sprintf("LinearLeastSquares on monomials panicked: %v (%s)", e, c15Brief(c)), c)
 		}
 		return
 	}
 	c15CheckGuards(w, c, "LinearLeastSquares", gx, gy, gw)
 	if len(params) != d+1 || !c15Finite(params) {
-		w.Violate("poly-vs-lls", fmt.Sprintf("LinearLeastSquares on {1,x,..,x^%d} returned %v (%s)", d, params, c15Brief(c)), c)
+		c15V(w, "poly-vs-lls", fmt.Sprintf("LinearLeastSquares on {1,x,..,x^%d} returned %v (%s)", d, params, c15Brief(c)), c)
 		return
 	}
 	dist := 0.0
@@ -731,7 +844,7 @@ func c15JudgePoly(w *mon.W, c c15Case) {
 	// both are within tau_b of the minimiser of (nearly) the same problem;
 	// my float64 monomials differ from x^d by d/2 ulp, which the factor 3 covers
 	if !w.Err("poly-vs-lls", dist, 3*tb) {
-		w.Violate("poly-vs-lls", fmt.Sprintf("PolynomialRegression degree %d returned %v but LinearLeastSquares on {1,x,..,x^%d} returned %v (distance %.6g, tolerance %.3g; %s)", d, coef, d, params, dist, 3*tb, c15Brief(c)), c)
+		c15V(w, "poly-vs-lls", fmt.Sprintf("PolynomialRegression degree %d returned %v but LinearLeastSquares on {1,x,..,x^%d} returned %v (distance %.6g, tolerance %.3g; %s)", d, coef, d, params, dist, 3*tb, c15Brief(c)), c)
 	}
 
 	// the fit does not depend on the overall scale of the weights
@@ -739,7 +852,7 @@ func c15JudgePoly(w *mon.W, c c15Case) {
 		var r2 fit.PolynomialRegressionResult
 		w.Eval("PolynomialRegression")
 		if p, e := mon.Call(func() { r2 = fit.PolynomialRegression(gx.Slice(), gy.Slice(), gw2.Slice(), d) }); p {
-			w.Violate("panic", fmt.Sprintf("PolynomialRegression (weights rescaled) panicked: %v (%s)", e, c15Brief(c)), c)
+			c15V(w, "panic", fmt.Sprintf("PolynomialRegression (weights rescaled) panicked: %v (%s)", e, c15Brief(c)), c)
 			return nil, false
 		}
 		return append([]float64(nil), r2.Coefficients...), true
@@ -847,18 +960,23 @@ func c15JudgeLOESS(w *mon.W, c c15Case) {
 	w.HitIf(c.Coef != nil, "loess-polynomial-data")
 	w.HitIf(c.Domain != "", "shifted-domain")
 
-	// the ascending data, and the same data in the order of Perm
-	gxs, gys := c15NewGuard("xs", xs, false), c15NewGuard("ys", ys, false)
+	// the ascending data, and the same data in the order of Perm (a step of a
+	// history: only the ascending data, in the history's arrays, which LOESS
+	// is entitled to keep using without a copy; nothing else is fitted in
+	// between, so that consecutive evaluations see the same arrays)
+	hist := c.bufs != nil
+	allZero := c15AllZero(ys)
+	gxs, gys, _ := c15Guards(c, xs, ys, nil)
 	var fS, fP func(float64) float64
 	w.Eval("LOESS")
 	if p, e := mon.Call(func() { fS = fit.LOESS(gxs.Slice(), gys.Slice(), deg, span) }); p {
-		w.Violate("panic", fmt.Sprintf("LOESS(sorted input, degree %d, span %g) panicked: %v (%s)", deg, span, e, c15Brief(c)), c)
+		c15V(w, "panic", fmt.Sprintf("LOESS(sorted input, degree %d, span %g) panicked: %v (%s)", deg, span, e, c15Brief(c)), c)
 		return
 	}
 	c15CheckGuards(w, c, "LOESS (sorted input)", gxs, gys)
 	var gxp, gyp *c15Guard
 	shuffled := false
-	if len(c.Perm) == n {
+	if len(c.Perm) == n && !hist {
 		px, py := make([]float64, n), make([]float64, n)
 		seen := make([]bool, n)
 		for k, i := range c.Perm {
@@ -873,7 +991,7 @@ func c15JudgeLOESS(w *mon.W, c c15Case) {
 		w.HitIf(shuffled, "shuffled-input")
 		w.Eval("LOESS")
 		if p, e := mon.Call(func() { fP = fit.LOESS(gxp.Slice(), gyp.Slice(), deg, span) }); p {
-			w.Violate("panic", fmt.Sprintf("LOESS(shuffled input, degree %d, span %g) panicked: %v (%s)", deg, span, e, c15Brief(c)), c)
+			c15V(w, "panic", fmt.Sprintf("LOESS(shuffled input, degree %d, span %g) panicked: %v (%s)", deg, span, e, c15Brief(c)), c)
 			return
 		}
 		if !c15CheckGuards(w, c, "LOESS (unsorted input)", gxp, gyp) {
@@ -881,7 +999,7 @@ func c15JudgeLOESS(w *mon.W, c c15Case) {
 		}
 	}
 	if fS == nil || (gxp != nil && fP == nil) {
-		w.Violate("nil-func", "LOESS returned a nil function ("+c15Brief(c)+")", c)
+		c15V(w, "nil-func", "LOESS returned a nil function ("+c15Brief(c)+")", c)
 		return
 	}
 	rng := mon.NewRand(c.Seed, 0x10e55)
@@ -901,7 +1019,7 @@ func c15JudgeLOESS(w *mon.W, c c15Case) {
 		var y float64
 		w.Eval("LOESS(...)(x)")
 		if p, e := mon.Call(func() { y = f(x) }); p {
-			w.Violate("panic", fmt.Sprintf("LOESS(%s, degree %d, span %g)(%.17g) panicked: %v (%s)", how, deg, span, x, e, c15Brief(c)), one(x))
+			c15V(w, "panic", fmt.Sprintf("LOESS(%s, degree %d, span %g)(%.17g) panicked: %v (%s)", how, deg, span, x, e, c15Brief(c)), one(x))
 			return 0, false
 		}
 		return y, true
@@ -923,6 +1041,18 @@ func c15JudgeLOESS(w *mon.W, c c15Case) {
 		w.HitIf(!qAmb && qe == deg+2, "loess-q==degree+2(interpolation)")
 		w.HitIf(!qAmb && qe == deg+2 && deg == 0, "loess-q==2-degree-0(nearest-point)")
 		c15ScaleClasses(w, c, ys, nil)
+		w.HitIf(allZero, "loess-ys-all-zero")
+		if !allZero {
+			winZero := true
+			for _, cd := range cands {
+				for _, i := range cd.idx {
+					winZero = winZero && ys[i] == 0
+				}
+			}
+			// every admissible window lies on a stretch of exactly zero ys:
+			// the local fit is the zero polynomial whatever the other ys are
+			w.HitIf(winZero, "loess-window-all-zero-ys")
+		}
 		if tie {
 			w.Hit("window-tie")
 			w.Ambiguous()
@@ -942,7 +1072,7 @@ func c15JudgeLOESS(w *mon.W, c c15Case) {
 				}
 			}
 			if !w.Err("loess-vs-local-fit", math.Abs(got-bc.val), bc.tol) {
-				w.Violate("loess-value", fmt.Sprintf("LOESS(%s, degree %d, span %g)(%.17g)=%.17g; the tricube-weighted degree-%d fit over the %d nearest of %d points evaluates to %.17g there (tolerance %.3g; %s)", how, deg, span, x, got, deg, len(bc.idx), n, bc.val, bc.tol, c15Brief(c)), one(x))
+				c15V(w, "loess-value", fmt.Sprintf("LOESS(%s, degree %d, span %g)(%.17g)=%.17g; the tricube-weighted degree-%d fit over the %d nearest of %d points evaluates to %.17g there (tolerance %.3g; %s)", how, deg, span, x, got, deg, len(bc.idx), n, bc.val, bc.tol, c15Brief(c)), one(x))
 				return false, bc
 			}
 			return true, bc
@@ -959,7 +1089,7 @@ func c15JudgeLOESS(w *mon.W, c c15Case) {
 			}
 			okP, _ := judge(gotP, "shuffled input")
 			if okS && okP && !w.Err("loess-order-independence", math.Abs(gotS-gotP), 2*bc.tol) {
-				w.Violate("loess-order", fmt.Sprintf("LOESS(degree %d, span %g)(%.17g): %.17g for ascending input, %.17g for the same points shuffled (%s)", deg, span, x, gotS, gotP, c15Brief(c)), one(x))
+				c15V(w, "loess-order", fmt.Sprintf("LOESS(degree %d, span %g)(%.17g): %.17g for ascending input, %.17g for the same points shuffled (%s)", deg, span, x, gotS, gotP, c15Brief(c)), one(x))
 			}
 		}
 		if !okS {
@@ -969,12 +1099,12 @@ func c15JudgeLOESS(w *mon.W, c c15Case) {
 		if c.Coef != nil && len(c.Coef) <= deg+1 {
 			val, _ := ref.PolyEval(mon.Un(c.Coef), x)
 			if !w.Err("loess-reproduces-polynomial", math.Abs(gotS-ref.F64(val)), 2*bc.tol) {
-				w.Violate("loess-polynomial", fmt.Sprintf("data generated by the polynomial %v: LOESS(degree %d, span %g)(%.17g)=%.17g, the polynomial is %.17g there (tolerance %.3g; %s)", mon.Un(c.Coef), deg, span, x, gotS, ref.F64(val), 2*bc.tol, c15Brief(c)), one(x))
+				c15V(w, "loess-polynomial", fmt.Sprintf("data generated by the polynomial %v: LOESS(degree %d, span %g)(%.17g)=%.17g, the polynomial is %.17g there (tolerance %.3g; %s)", mon.Un(c.Coef), deg, span, x, gotS, ref.F64(val), 2*bc.tol, c15Brief(c)), one(x))
 			}
 		}
 		// only the q nearest points matter: give every other point an
 		// unrelated y and ask again
-		if !tie && !qAmb && len(bc.idx) < n {
+		if !tie && !qAmb && len(bc.idx) < n && !hist {
 			in := make([]bool, n)
 			for _, i := range bc.idx {
 				in[i] = true
@@ -989,7 +1119,7 @@ func c15JudgeLOESS(w *mon.W, c c15Case) {
 			var f2 func(float64) float64
 			w.Eval("LOESS")
 			if p, e := mon.Call(func() { f2 = fit.LOESS(gx2.Slice(), gy2.Slice(), deg, span) }); p || f2 == nil {
-				w.Violate("panic", fmt.Sprintf("LOESS panicked: %v (%s)", e, c15Brief(c)), one(x))
+				c15V(w, "panic", fmt.Sprintf("LOESS panicked: %v (%s)", e, c15Brief(c)), one(x))
 				continue
 			}
 			got2, ok := call(f2, x, "far points changed")
@@ -998,7 +1128,7 @@ func c15JudgeLOESS(w *mon.W, c c15Case) {
 			}
 			w.Hit("locality-checked")
 			if !w.Err("loess-locality", math.Abs(got2-gotS), 2*bc.tol) {
-				w.Violate("loess-locality", fmt.Sprintf("LOESS(degree %d, span %g)(%.17g) changed from %.17g to %.17g when only the ys of points outside the %d nearest were changed (%s)", deg, span, x, gotS, got2, len(bc.idx), c15Brief(c)), one(x))
+				c15V(w, "loess-locality", fmt.Sprintf("LOESS(degree %d, span %g)(%.17g) changed from %.17g to %.17g when only the ys of points outside the %d nearest were changed (%s)", deg, span, x, gotS, got2, len(bc.idx), c15Brief(c)), one(x))
 			}
 			c15CheckGuards(w, one(x), "LOESS(...)(x)", gx2, gy2)
 		}
@@ -1011,6 +1141,47 @@ func c15JudgeLOESS(w *mon.W, c c15Case) {
 	if gxp != nil {
 		c15CheckGuards(w, c, "LOESS(...)(x) (unsorted input)", gxp, gyp)
 	}
+}
+
+// ---------------------------------------------------------------------------
+// histories: a caller that keeps its xs, ys and weights buffers and refills
+// them for the next data set
+
+// c15JudgeHistory judges the steps one after the other, Rounds times over
+// (A, B, A, B, ...). Every step is a complete, independent case: each call is
+// judged against the reference for the numbers that are in the arrays at the
+// time of the call, exactly as if the arrays were fresh; the only difference
+// is that the library has seen the same arrays (same addresses, same
+// lengths) with other contents before. Nothing returned by an earlier step
+// (Coefficients, F, a LOESS function) is used after the refill.
+func c15JudgeHistory(w *mon.W, c c15Case) {
+	if len(c.Steps) < 2 || len(c.Steps) > 8 {
+		return
+	}
+	op, n := c.Steps[0].Op, len(c.Steps[0].Xs)
+	for _, s := range c.Steps {
+		if s.Op != op || len(s.Xs) != n || len(s.Ys) != n || (s.Ws != nil && len(s.Ws) != n) || (op != "lls" && op != "poly" && op != "loess") {
+			return
+		}
+	}
+	rounds := c.Rounds
+	if rounds < 1 || rounds > 4 {
+		rounds = 2
+	}
+	bufs := c15NewBufs(n)
+	outer := c
+	for r := 0; r < rounds; r++ {
+		for k, s := range c.Steps {
+			s.bufs, s.outer = bufs, &outer
+			s.step = fmt.Sprintf("history call %d of %d: data set %d of %d written in place into the arrays every call of the history uses", r*len(c.Steps)+k+1, rounds*len(c.Steps), k+1, len(c.Steps))
+			c15Judge(w, s)
+		}
+	}
+	// at least two consecutive library calls on the same arrays with
+	// different contents (which steps reach the library is decided by the
+	// reference side: conditioning, window size)
+	w.HitIf(bufs.fills >= 2, "history-"+op)
+	w.HitIf(bufs.fills >= 2, "history-buffers-refilled-in-place")
 }
 
 // ---------------------------------------------------------------------------
@@ -1188,12 +1359,71 @@ func c15Hash(c c15Case) uint64 {
 	if c.Ws != nil {
 		h = h.Fs(mon.Un(c.Ws))
 	}
+	for _, st := range c.Steps {
+		h = h.U(c15Hash(st))
+	}
 	return h.Is(c.Perm).Is(c.TermPerm).Sum()
 }
 
-func c15GenLLS(rng *mon.Rand, i int) c15Case {
+// c15Opt steers a generator away from its own random choices (the zero value
+// changes nothing, and the generator then draws exactly the same numbers as
+// before the options existed).
+type c15Opt struct {
+	n      int    // number of points (a step of a history must match the first step)
+	basis  string // lls: this basis with
+	p      int    // this many functions
+	deg    int    // poly: this degree when hasDeg
+	hasDeg bool
+}
+
+// c15ZeroYs turns a case into data that are identically zero (generated by
+// the zero polynomial): the minimiser of every fit is exactly 0.
+func c15ZeroYs(c *c15Case) {
+	for i := range c.Ys {
+		c.Ys[i] = 0
+	}
+	c.Coef, c.Exact, c.KY = []mon.F{0}, true, 0
+}
+
+// c15ZeroPlateau sets the ys of L >= ceil(span*n) consecutive points of a
+// LOESS case to exactly 0 and adds, for every window of q points that lies on
+// the plateau, a query whose q nearest points are that window.
+func c15ZeroPlateau(rng *mon.Rand, c *c15Case) {
+	xs := mon.Un(c.Xs)
+	n := len(xs)
+	qe, qr := ref.CeilProduct(float64(c.Span), n)
+	q := imin(n, imax(qe, qr))
+	if q < 1 {
+		return
+	}
+	L := imin(n, q+rng.Range(0, 3))
+	a := rng.Intn(n - L + 1)
+	for i := a; i < a+L; i++ {
+		c.Ys[i] = 0
+	}
+	c.Coef, c.Exact = nil, false
+	r := xs[n-1] - xs[0]
+	for s := a; s+q <= a+L; s++ {
+		lo, hi := xs[0]-0.25*r, xs[n-1]+0.25*r
+		if s > 0 {
+			lo = (xs[s-1] + xs[s+q-1]) / 2
+		}
+		if s+q < n {
+			hi = (xs[s] + xs[s+q]) / 2
+		}
+		c.Qs = append(c.Qs, mon.F(lo+(hi-lo)*rng.Uniform(0.2, 0.8)))
+	}
+}
+
+func c15GenLLS(rng *mon.Rand, i int, opt c15Opt) c15Case {
 	c := c15Case{Op: "lls", Seed: rng.Uint64()}
-	switch i % 8 {
+	k := i % 8
+	if opt.basis != "" {
+		c.Basis, c.Degree = opt.basis, opt.p
+		k = -1
+	}
+	switch k {
+	case -1:
 	case 0, 1:
 		c.Basis = "mono"
 		c.Degree = rng.Range(0, 6)
@@ -1209,6 +1439,9 @@ func c15GenLLS(rng *mon.Rand, i int) c15Case {
 		c.Basis = "sincos"
 	default:
 		c.Basis = "x"
+	}
+	if opt.n > 0 && c.Basis == "mono" && c.Degree > opt.n-1 {
+		c.Degree = opt.n - 1
 	}
 	p := len(c15Basis(c.Basis, c.Degree).fns)
 	if p >= 2 && rng.Intn(3) == 0 {
@@ -1234,6 +1467,16 @@ func c15GenLLS(rng *mon.Rand, i int) c15Case {
 	}
 	if rng.Intn(3) == 0 {
 		n = rng.Range(lo, imin(40, lo+6))
+	}
+	if p >= 8 {
+		// wide bases: n >= p+2
+		n = rng.Range(p+2, 40)
+		if rng.Intn(4) == 0 {
+			n = rng.Range(p+2, p+6)
+		}
+	}
+	if opt.n > 0 {
+		n = opt.n
 	}
 	xs := c15Design(rng, n, rng.Intn(4))
 	var ys []float64
@@ -1273,9 +1516,12 @@ func c15GenLLS(rng *mon.Rand, i int) c15Case {
 	return c
 }
 
-func c15GenPoly(rng *mon.Rand, i int) c15Case {
+func c15GenPoly(rng *mon.Rand, i int, opt c15Opt) c15Case {
 	c := c15Case{Op: "poly", Seed: rng.Uint64()}
 	d := i % 7
+	if opt.hasDeg {
+		d = opt.deg
+	}
 	c.Degree = d
 	if d <= 2 && rng.Intn(3) == 0 {
 		c.Domain = []string{"[10,12]", "[0,1e3]"}[rng.Intn(2)]
@@ -1287,6 +1533,9 @@ func c15GenPoly(rng *mon.Rand, i int) c15Case {
 		n = lo
 	case 1:
 		n = rng.Range(lo, imin(40, lo+4))
+	}
+	if opt.n > 0 {
+		n = opt.n
 	}
 	mode := rng.Intn(4) // 0 exact polynomial, 1 rounded polynomial, 2 polynomial + noise, 3 smooth
 	kind := rng.Intn(4)
@@ -1404,6 +1653,16 @@ func c15GenLOESS(rng *mon.Rand, i int) c15Case {
 	if span > 1 {
 		span = 1
 	}
+	c.Span = mon.F(span)
+	c15LoessFill(rng, &c, n)
+	return c
+}
+
+// c15LoessFill draws the n data points, the order and the queries of a LOESS
+// case whose degree, span and domain are set.
+func c15LoessFill(rng *mon.Rand, c *c15Case, n int) {
+	deg, span := c.Degree, float64(c.Span)
+	c.Coef, c.Exact, c.KX, c.KY = nil, false, 0, 0
 	xs := c15Design(rng, n, rng.Intn(4))
 	c15Shift(xs, c.Domain)
 	sort.Float64s(xs)
@@ -1424,7 +1683,7 @@ func c15GenLOESS(rng *mon.Rand, i int) c15Case {
 	default:
 		ys = c15Smooth(rng, xs, c.Domain)
 	}
-	c.Xs, c.Ys, c.Span = mon.Fs(xs), mon.Fs(ys), mon.F(span)
+	c.Xs, c.Ys = mon.Fs(xs), mon.Fs(ys)
 	c.Perm = rng.Perm(n)
 	qe, _ := ref.CeilProduct(span, n)
 	if qe > n {
@@ -1435,7 +1694,75 @@ func c15GenLOESS(rng *mon.Rand, i int) c15Case {
 	if c.Domain == "" {
 		kx = c15KX(rng, deg)
 	}
-	c15Rescale(&c, kx, c15KY(rng))
+	c15Rescale(c, kx, c15KY(rng))
+}
+
+// c15GenHistory builds a history of two independent data sets of the same
+// size for one operation (h selects the flavour).
+func c15GenHistory(rng *mon.Rand, op string, h int) c15Case {
+	c := c15Case{Op: "history", Rounds: 2, Seed: rng.Uint64()}
+	var a, b c15Case
+	switch op {
+	case "lls":
+		var opt c15Opt
+		if h%5 == 4 {
+			opt.basis, opt.p = []string{"fourier", "cheb"}[rng.Intn(2)], rng.Range(8, 12)
+		}
+		a = c15GenLLS(rng, h, opt)
+		opt.n = len(a.Xs)
+		b = c15GenLLS(rng, h, opt)
+	case "poly":
+		a = c15GenPoly(rng, h, c15Opt{})
+		// the second fit has the same or a lower degree in two thirds of the
+		// histories, any admissible degree otherwise
+		n := len(a.Xs)
+		opt := c15Opt{n: n, hasDeg: true, deg: a.Degree}
+		switch h % 3 {
+		case 1:
+			opt.deg = rng.Range(0, a.Degree)
+		case 2:
+			opt.deg = rng.Range(0, imin(6, n-1))
+		}
+		b = c15GenPoly(rng, h, opt)
+	default:
+		a = c15GenLOESS(rng, h)
+		n := len(a.Xs)
+		if h%3 == 2 {
+			// the window is all the data: every evaluation fits the whole arrays
+			a.Span = 1
+		}
+		if a.Domain != "" && h%2 == 0 {
+			a.Domain = ""
+		}
+		c15LoessFill(rng, &a, n)
+		b = a
+		b.Seed = rng.Uint64()
+		c15LoessFill(rng, &b, n)
+		// the first and the last evaluation of every step are below the data
+		// (their window is the first q points), so that consecutive
+		// evaluations across a refill use the same part of the arrays; at
+		// most eight others in between
+		trim := func(s *c15Case) {
+			qs := s.Qs
+			if len(qs) < 6 {
+				return
+			}
+			out := []mon.F{qs[2]}
+			for k, q := range qs {
+				if k != 2 && k != 4 && len(out) < 9 {
+					out = append(out, q)
+				}
+			}
+			s.Qs = append(out, qs[4])
+			s.Perm = nil
+		}
+		trim(&a)
+		trim(&b)
+	}
+	if h%7 == 3 {
+		c15ZeroYs(&b)
+	}
+	c.Steps = []c15Case{a, b}
 	return c
 }
 
@@ -1499,7 +1826,7 @@ func c15SelfTest() error {
 }
 
 func c15Run(r *mon.Run) {
-	r.Rule("designs: 3..40 distinct x in [-2,2] (uniform, equispaced, dyadic grid, two clusters), for degree<=2 also mapped to [10,12] and [0,1e3]; weights nil / log-uniform 1e-2..1e2 / constant / small integers; LinearLeastSquares on monomials 0..6, {1,sin,cos}, {1,x,exp}, a 5-function mixed basis and the constant-free bases {x}, {x,x^2}, {sin,cos}, in a third of the cases with the terms reversed (constant last) or shuffled; in a third of the weighted cases the weight vector is multiplied by 10^U(-30,30), in a quarter of all cases ys by 2^k (|k|<=330) and, for polynomial designs on [-2,2], xs by 2^k (|k|<=16/degree; any for degree 0); every LinearLeastSquares / PolynomialRegression fit is repeated with all weights multiplied by a random 10^U(-30,30) (no weights: the constant weight) and must not move; PolynomialRegression degree 0..6 on exact, rounded and noisy polynomial data and smooth data; LOESS degree 0..2, ceil(span*n) from degree+2 (the farthest point has weight 0: interpolation of the degree+1 others) to n, sorted and shuffled input, queries inside, at data, at and beyond both ends and around window switches. Designs with cond(X^T W X) > 1e10 are skipped. Non-trivial = hits a class; distinct by hash of (op, basis, degree, xs, ys, weights, span, order).")
+	r.Rule("designs: 3..40 distinct x in [-2,2] (uniform, equispaced, dyadic grid, two clusters), for degree<=2 also mapped to [10,12] and [0,1e3]; weights nil / log-uniform 1e-2..1e2 / constant / small integers; LinearLeastSquares on monomials 0..6, {1,sin,cos}, {1,x,exp}, a 5-function mixed basis and the constant-free bases {x}, {x,x^2}, {sin,cos}, in a third of the cases with the terms reversed (constant last) or shuffled; in a third of the weighted cases the weight vector is multiplied by 10^U(-30,30), in a quarter of all cases ys by 2^k (|k|<=330) and, for polynomial designs on [-2,2], xs by 2^k (|k|<=16/degree; any for degree 0); every LinearLeastSquares / PolynomialRegression fit is repeated with all weights multiplied by a random 10^U(-30,30) (no weights: the constant weight) and must not move; PolynomialRegression degree 0..6 on exact, rounded and noisy polynomial data and smooth data; LOESS degree 0..2, ceil(span*n) from degree+2 (the farthest point has weight 0: interpolation of the degree+1 others) to n, sorted and shuffled input, queries inside, at data, at and beyond both ends and around window switches. LinearLeastSquares also with 8..12 functions of the Fourier basis {1, sin(k pi x/2), cos(k pi x/2)} and of the Chebyshev basis {T_k(x/2)} on n >= p+2 points; every 53rd (LOESS: 29th) random case has ys identically zero (exact minimiser 0) and every 29th LOESS case a stretch of >= ceil(span*n) zero ys with queries whose whole window lies on it; histories (single goroutine): two independent data sets of the same size written alternately (A,B,A,B) in place into the same xs/ys/weights arrays, each call judged against the reference of the numbers then in the arrays. Designs with cond(X^T W X) > 1e10 are skipped. Non-trivial = hits a class; distinct by hash of (op, basis, degree, xs, ys, weights, span, order).")
 	r.Assume("reference: exact minimiser by 384-bit Gaussian elimination of the normal equations formed from the float64 inputs, cross-checked at start-up against gonum Householder QR and the published NIST LOWESS example; condition numbers from gonum/mat SVD of X^T W X",
 		"the basis functions handed to LinearLeastSquares are pure; their float64 values define the problem",
 		"tolerances: backward-stable normal-equations bound with C=16 (see the head of props/c15.go)")
@@ -1508,27 +1835,64 @@ func c15Run(r *mon.Run) {
 		"loess-degree-0", "loess-degree-1", "loess-degree-2", "poly-degree-6",
 		"lls-basis-x", "lls-basis-x-x2", "lls-basis-sincos", "lls-no-constant-term", "lls-constant-not-first", "lls-constant-last", "lls-terms-permuted",
 		"weights-all-tiny(<1e-6)", "weights-all-huge(>1e6)", "ys-all-tiny(<1e-30)", "ys-huge(>1e30)", "xs-rescaled", "weight-scale-law-checked",
-		"loess-q==degree+2(interpolation)", "loess-q==2-degree-0(nearest-point)")
+		"loess-q==degree+2(interpolation)", "loess-q==2-degree-0(nearest-point)",
+		"lls-ys-all-zero", "poly-ys-all-zero", "loess-ys-all-zero", "loess-window-all-zero-ys",
+		"p>=8", "lls-basis-fourier", "lls-basis-cheb",
+		"history-lls", "history-poly", "history-loess")
 	if err := c15SelfTest(); err != nil {
 		r.Inconclusive("reference self-test failed: " + err.Error())
 		return
 	}
 
+	// every 53rd / 29th case of the three random classes has ys that are
+	// identically zero (the minimiser is exactly 0); every 29th LOESS case has
+	// a stretch of at least ceil(span*n) zero ys among arbitrary data
 	r.Parallel("lls", r.Pick(4000, 40000), func(w *mon.W, i int) {
-		c := c15GenLLS(w.Rng, i)
+		c := c15GenLLS(w.Rng, i, c15Opt{})
+		if i%53 == 52 {
+			c15ZeroYs(&c)
+		}
+		c15Judge(w, c)
+		w.Distinct(c15Hash(c))
+	})
+	// LinearLeastSquares with 8..12 basis functions
+	r.Parallel("lls-wide", r.Pick(160, 1600), func(w *mon.W, i int) {
+		c := c15GenLLS(w.Rng, i, c15Opt{basis: []string{"fourier", "cheb"}[i%2], p: 8 + (i/2)%5})
+		if i%31 == 30 {
+			c15ZeroYs(&c)
+		}
 		c15Judge(w, c)
 		w.Distinct(c15Hash(c))
 	})
 	r.Parallel("poly", r.Pick(4000, 40000), func(w *mon.W, i int) {
-		c := c15GenPoly(w.Rng, i)
+		c := c15GenPoly(w.Rng, i, c15Opt{})
+		if i%53 == 52 {
+			c15ZeroYs(&c)
+		}
 		c15Judge(w, c)
 		w.Distinct(c15Hash(c))
 	})
 	r.Parallel("loess", r.Pick(1500, 15000), func(w *mon.W, i int) {
 		c := c15GenLOESS(w.Rng, i)
+		switch i % 29 {
+		case 28:
+			c15ZeroYs(&c)
+		case 14:
+			c15ZeroPlateau(w.Rng, &c)
+		}
 		c15Judge(w, c)
 		w.Distinct(c15Hash(c))
 	})
+	// histories run on one goroutine with nothing else in flight: whatever the
+	// library may remember between two calls is not disturbed by other cases
+	for _, op := range []string{"lls", "poly", "loess"} {
+		op := op
+		r.Serial("history-"+op, r.Pick(24, 240), func(w *mon.W, i int) {
+			c := c15GenHistory(w.Rng, op, i)
+			c15Judge(w, c)
+			w.Distinct(c15Hash(c))
+		})
+	}
 
 	// enumerated LOESS space: every (n, degree, q) with q >= degree+2 for
 	// small n on an irregular grid, queries at every datum, at every window
